@@ -100,6 +100,9 @@ func genFaulty(r *simrt.RNG, tier string, variant int, prop string) Plan {
 		default:
 			op.Kind = "notify"
 		}
+		if prop == "C05" && op.Kind == "retry" && r.Bool(0.2) {
+			op.Kind, op.N, op.Size, op.Err = "subretry", 3, 0, false // a retry-tagged subscription
+		}
 		if op.Kind == "call" && r.Bool(0.15) {
 			op.Kind = "call-noctx"
 		} else if op.Kind == "call" && r.Bool(0.12) {
@@ -434,7 +437,7 @@ func checkAtMostOnce(w *World, p *Plan) {
 			if p.Family == "healthy" && t.Returned && t.RetErr != nil {
 				e.Violate("C04.notify-once-healthy", "notification tok=%d on a healthy connection failed locally: %v", t.ID, t.RetErr)
 			}
-		case "retry", "retry-noctx":
+		case "retry", "retry-noctx", "subretry":
 			if t.Execs > 1 {
 				e.Probe("retry-tagged-call-executed-more-than-once")
 			}
@@ -443,7 +446,7 @@ func checkAtMostOnce(w *World, p *Plan) {
 	// wire: an untagged request id is written at most once; notifications have no id and get no response
 	retryTok := map[int]bool{}
 	for _, op := range p.Ops {
-		if op.Kind == "retry" || op.Kind == "retry-noctx" {
+		if op.Kind == "retry" || op.Kind == "retry-noctx" || op.Kind == "subretry" {
 			retryTok[op.Tok] = true
 		}
 	}
@@ -505,7 +508,7 @@ func checkHealing(w *World, p *Plan, c0 ClientPlan, faultStep uint64) {
 		case op.Phase == 2 && c0.NoReconnect:
 			// may fail (if the connection was lost) but must not block: covered by the hang oracle
 		}
-		if (op.Kind == "retry" || op.Kind == "retry-noctx") && !c0.NoReconnect {
+		if (op.Kind == "retry" || op.Kind == "retry-noctx" || op.Kind == "subretry") && !c0.NoReconnect {
 			if t.RetErr != nil && isConnErr(t.RetErr) {
 				e.Violate("C05.b-retry-rides-out", "retry-tagged tok=%d returned the connection error instead of a genuine result: %v", t.ID, t.RetErr)
 			}
